@@ -41,7 +41,8 @@ def bounds(tier):
             "leading_shapes": [[], [2], [2, 2], [0], [1, 3], [2, 3], [3, 1, 2]], "weights": ["none", "ints", "floats", "tiny", "u8"]}
 
 
-CLASS_SETS = [[0, 1], [0, 1, 2], ["b", "a", "c"]]
+# the last ones: float classes whose floor is not their rank, integers that are not 0..N-1, labels of mixed length
+CLASS_SETS = [[0, 1], [0, 1, 2], ["b", "a", "c"], [0.0, 0.5, 2.0], [2, 5, 3], ["x", "xy", ""], [-1.5, 0.0]]
 
 
 def work(tier, seed):
@@ -294,6 +295,13 @@ def run(item, ctx, tier, seed):
             ctx.tick()
             if ok_f:
                 check_cm_object(ctx, dict(case, dtype="float64 x0.5"), cmf, [[x / 2 for x in r] for r in mF], names)
+        if i % 3 == 0 and any(x == 2 for r in m for x in r):
+            # cells of very different magnitude in one matrix (importance weights): 2 -> 1e15, sums stay exact in float64
+            md = [[1e15 if x == 2 else float(x) for x in r] for r in m]
+            ok_d, cmd = guarded(ctx, "construct-dynamic-range", case, lambda: ConfusionMatrix(matrix=np.array(md), classes=names))
+            ctx.tick()
+            if ok_d:
+                check_cm_object(ctx, dict(case, dtype="float64, 2 -> 1e15"), cmd, [[F(x) for x in r] for r in md], names)
         if i % 3 == 2:
             # small integer dtypes with cells near the top of their range (row / column totals leave the dtype)
             for dt_, k_ in ((np.uint8, 100), (np.int8, 60), (np.int16, 16000)):
